@@ -36,6 +36,12 @@ def configs(tier, seed, salt):
                         (8, [(8, "rw", a) for a in range(5)]), (16, [(16, "r", 0), (16, "r", 1), (16, "rw", 2)])]:
         for ov in (0, 1):
             cfgs.append({"dw": dw_, "aw": 4, "align": 0, "ov": ov, "regs": [[w, acc, addr, None] for w, acc, addr in layout]})
+    # many shadow chunks: every chunk count from 1 to 18 in one register and spread over several registers (the read-data fan-in
+    # is a pairwise reduction: every shape of that tree), and many one-word registers
+    for k in range(1, 19):
+        cfgs.append({"dw": 8, "aw": 6, "align": 0, "ov": None, "regs": [[8 * k, "rw", None, None], [8, "r", None, None]]})
+    for nregs in (5, 6, 7, 9, 11, 13, 14, 17):
+        cfgs.append({"dw": 8, "aw": 6, "align": 0, "ov": None, "regs": [[8 if i % 3 else 12, "rw" if i % 2 else "r", None, None] for i in range(nregs)]})
     for c in list(cfgs):
         for ov in (None, 0, 1, 2):
             if c["regs"] and ov != c["ov"] and rng.random() < (0.5 if tier == "quick" else 1.0):
